@@ -12,6 +12,9 @@ def dispatch (cmd : String) (args : List Sexp) : Option String :=
   | "cli.violations" => Driver.Cli.violations args
   | "unparse" => Driver.Printer.unparse args
   | "unparse.expr" => Driver.Printer.unparseExpr args
+  | "gram.check" => Driver.Printer.gramCheck args
+  | "paren.violations" => Driver.Printer.parenViolations args
+  | "spacing.violations" => Driver.Printer.spacingViolations args
   | _ => none
 
 def handle (line : String) : String :=
